@@ -7,7 +7,7 @@ Orders == {"client_first", "upstream_first", "simultaneous", "client_rst", "upst
 \* via "route": behind a real route whose matcher needs two matching rounds (the client's first segment is short);
 \* failpeer: a dial attempt to a multi-peer upstream is given up half-way, a second upstream serves
 Grid == { g \in [order : Orders, csize : {0, 1, 3000, 70000, 1048576}, usize : {0, 1, 5000, 200000}, peers : {1, 2},
-                  chunk : {1, 1000, 65536}, prefetch : {0, 5, 2048}, via : {"direct", "route", "route2", "bigroute", "throttle", "pp", "ppu"}, failpeer : BOOLEAN,
+                  chunk : {1, 1000, 65536}, prefetch : {0, 5, 2048}, via : {"direct", "route", "route2", "bigroute", "throttle", "throttle2", "pp", "ppu"}, failpeer : BOOLEAN,
                   transport : {"tcp", "unix", "tls"}] :
             /\ (g.via \in {"route", "route2"} => (g.prefetch = 0 /\ g.csize >= 3000))
             \* bigroute: the route's matcher needs 8000 bytes, delivered in segments that take the matching buffer beyond 8192
@@ -18,7 +18,7 @@ Grid == { g \in [order : Orders, csize : {0, 1, 3000, 70000, 1048576}, usize : {
             \* throttle: the shipped throttle handler (no limits) wraps the connection before the proxy handler gets it -
             \* the downstream the proxy sees is then a wrapper, not the TCP connection itself
             \* pp: the shipped proxy_protocol handler consumes a v1 header and wraps the connection before the proxy handler
-            /\ (g.via \in {"throttle", "pp", "ppu"} => (g.prefetch = 0 /\ g.chunk = 65536 /\ ~g.failpeer /\ g.csize \in {0, 3000, 70000} /\ g.usize \in {0, 5000}))
+            /\ (g.via \in {"throttle", "throttle2", "pp", "ppu"} => (g.prefetch = 0 /\ g.chunk = 65536 /\ ~g.failpeer /\ g.csize \in {0, 3000, 70000} /\ g.usize \in {0, 5000}))
             /\ (g.failpeer => (g.order \in {"client_first", "simultaneous"} /\ g.chunk = 65536))
             \* the other transports that offer half-close: Unix stream sockets on both sides; TLS on both sides (the client's
             \* TLS terminated by the real tls handler in front of the proxy, the proxy speaking TLS to its upstreams)
@@ -28,7 +28,7 @@ Grid == { g \in [order : Orders, csize : {0, 1, 3000, 70000, 1048576}, usize : {
 QuickGrid == { g \in Grid : /\ g.csize \in {0, 3000, 70000} /\ g.usize \in {1, 5000, 200000}
                             /\ g.chunk \in {1000, 65536} /\ g.prefetch \in {0, 5}
                             /\ (g.via \in {"route", "route2"} => g.chunk = 65536 /\ g.usize # 200000)
-                            /\ (g.via \in {"throttle", "pp", "ppu"} => g.csize = 3000 /\ g.usize = 5000)
+                            /\ (g.via \in {"throttle", "throttle2", "pp", "ppu"} => g.csize = 3000 /\ g.usize = 5000)
                             /\ (g.transport # "tcp" => g.chunk = 65536 /\ g.usize \in {1, 5000}) }
 VARIABLE g
 Init == g \in (IF Tier = "quick" THEN QuickGrid ELSE Grid)
